@@ -81,7 +81,50 @@ func VxC19Stream() {
 	foreign, _ := so.Encrypt(env.Ctx, []byte{9})
 	so.Close()
 
-	L := vx.Param("L")
+	vxStreamProgram(vxServer(f), foreign, vx.Param("L"))
+}
+
+// vxServer: the server object exactly as NewAppEncryption builds it (a streamer per stream), over the harness's
+// session factory.
+func vxServer(f sessionFactory) *AppEncryption {
+	return &AppEncryption{streamerFactory: streamerFactoryFunc(func() *streamer { return &streamer{sessionFactory: f} })}
+}
+
+// VxC19TwoStreams: the same server first serves a complete, well-behaved stream of another client (get-session for
+// partition "alice", one encrypt, end of stream) and then the symbolic request program on a second stream: nothing
+// the first stream did may change what the second one is answered (in particular encrypt/decrypt before a successful
+// get-session stay errors).
+func VxC19TwoStreams() {
+	e := env.New()
+	f := e.Factory(e.Policy(env.Policies[0], vx.Choice("cache", vx.Param("caches"))))
+	vx.Now()
+	vx.ClockFreeze(true)
+	so, _ := f.GetSession("other")
+	foreign, _ := so.Encrypt(env.Ctx, []byte{9})
+	so.Close()
+	s := vxServer(f)
+	script := []*pb.SessionRequest{
+		{Request: &pb.SessionRequest_GetSession{GetSession: &pb.GetSession{PartitionId: "alice"}}},
+		{Request: &pb.SessionRequest_Encrypt{Encrypt: &pb.Encrypt{Data: []byte{7}}}},
+	}
+	if vx.Choice("first_stream_only_opens_its_session", 2) == 1 {
+		script = script[:1]
+	}
+	first := &vxStream{}
+	first.next = func() (*pb.SessionRequest, error) {
+		if first.recvs >= len(script) {
+			return nil, io.EOF
+		}
+		return script[first.recvs], nil
+	}
+	first.check = func(r *pb.SessionResponse) { vx.Assert("C19.first_stream_served", r != nil && !isErr(r)) }
+	s.Session(first)
+	vx.Assert("C19.first_stream_complete", first.sends == len(script))
+	vx.Reach("C19.first_stream_done")
+	vxStreamProgram(s, foreign, vx.Param("L"))
+}
+
+func vxStreamProgram(s *AppEncryption, foreign *appencryption.DataRowRecord, L int) {
 	st := &vxStream{}
 	initialised := false // a get-session succeeded
 	attempted := false   // a get-session was handled (successfully or not)
@@ -174,9 +217,9 @@ func VxC19Stream() {
 			vx.Assert("C19.foreign_or_corrupt_is_error", isErr(r))
 		}
 	}
-	s := &streamer{sessionFactory: f}
 	vx.FaultBudget("grpc", vx.Param("sendfaults"))
-	err := s.Stream(st)
+	err := s.Session(st)
+	vx.FaultBudget("grpc", 0)
 	if kind == rqRecvError && !st.sendFail {
 		vx.Assert("C19.transport_error_returned", err != nil)
 	}
